@@ -219,6 +219,15 @@ def reachIter (d : Doc) : Nat → List Name → List Name
 def reachable (d : Doc) (sels : List Selection) : List Name :=
   reachIter d d.frags.length (addNames [] (spreadsIn sels))
 
+/-- the set `r` of fragment names is closed under "spreads" (a run-time certificate that the
+breadth-first closure `reachable` has reached its fixpoint; it always has — at most
+`d.frags.length` rounds add a new fragment definition — and checking it makes the closure
+property available to the soundness proof without a counting argument) -/
+def reachClosed (d : Doc) (r : List Name) : Bool :=
+  (r.flatMap (fun n => match d.frag n with
+    | some fr => spreadsIn fr.sels
+    | none => [])).all (fun m => r.contains m)
+
 /-- NoFragmentCycles -/
 def acyclic (d : Doc) : Bool :=
   d.frags.all (fun fr => !(reachable d fr.sels).contains fr.name)
@@ -250,6 +259,8 @@ def validOp (s : Schema) (doc : Doc) (op : Operation) : Bool :=
     (reachable doc op.sels).all (fun n => match doc.frag n with
       | some fr => validSels cx fr.cond fr.sels
       | none => false) &&
+    (spreadsIn op.sels).all (fun m => (reachable doc op.sels).contains m) &&
+    reachClosed doc (reachable doc op.sels) &&
     acyclic doc
 
 def validDoc (s : Schema) (doc : Doc) : Bool := doc.ops.all (validOp s doc)
@@ -288,9 +299,7 @@ end
 
 def excArgs (s : Schema) (env : List VarDef) (vars : Vars) (defs : List ArgDef)
     (args : List (Name × Value)) : Bool :=
-  args.any (fun p => match defs.find? (fun d => d.name == p.1) with
-    | some d => excValue s env vars d.type p.2
-    | none => false)
+  args.any (fun p => defs.any (fun d => d.name == p.1 && excValue s env vars d.type p.2))
 
 def excDirs (s : Schema) (env : List VarDef) (vars : Vars) (dirs : List Directive) : Bool :=
   dirs.any (fun d => excArgs s env vars [{ name := "if", type := boolNN, default := none }] d.args)
